@@ -27,3 +27,76 @@ fn c07_k1_compact_roundtrip() {
     }
     kani::cover!(true, "reached end");
 }
+
+// ------------------------------------------------------------------ k1b: monotonicity
+/// for canonical compacts produced by `target_to_compact`, ordering of compacts = ordering of targets
+#[kani::proof]
+#[kani::unwind(6)]
+fn c07_k1_compact_monotone() {
+    let c1: u32 = kani::any();
+    let c2: u32 = kani::any();
+    let (t1, o1) = compact_to_target(c1);
+    let (t2, o2) = compact_to_target(c2);
+    kani::assume(!o1 && !o2 && !t1.is_zero() && !t2.is_zero());
+    // restrict to canonical encodings
+    kani::assume(target_to_compact(t1.clone()) == c1);
+    kani::assume(target_to_compact(t2.clone()) == c2);
+    if c1 < c2 {
+        assert!(t1 <= t2);
+    }
+    if t1 < t2 {
+        assert!(c1 <= c2);
+    }
+    kani::cover!(c1 < c2 && t1 < t2, "ordered pair reachable");
+}
+
+// ------------------------------------------------------------------ k3: PoW accepted iff hash <= target
+use ckb_pow::{EaglesongPowEngine, PowEngine};
+use ckb_types::{packed, prelude::*};
+
+static mut POW_OUT: [u8; 32] = [0u8; 32];
+
+fn eaglesong_stub(output: &mut [u8], _output_length: usize, _input: &[u8], _input_length: usize) {
+    // the hash function is outside the claim: it returns an arbitrary 32-byte digest
+    let o: [u8; 32] = kani::any();
+    unsafe {
+        POW_OUT = o;
+    }
+    output[..32].copy_from_slice(&o);
+}
+
+fn pow_hash_stub<'r>(_r: &packed::HeaderReader<'r>) -> packed::Byte32 where 'r: 'r {
+    packed::Byte32::default()
+}
+
+#[kani::proof]
+#[kani::unwind(34)]
+#[kani::stub(eaglesong::eaglesong::eaglesong_sponge, eaglesong_stub)]
+#[kani::stub(ckb_types::packed::HeaderReader::calc_pow_hash, pow_hash_stub)]
+fn c07_k3_pow_accept_iff_hash_le_target() {
+    let compact: u32 = kani::any();
+    let raw = packed::RawHeader::new_builder().compact_target(compact).build();
+    let header = packed::Header::new_builder().raw(raw).build();
+    let ok = EaglesongPowEngine.verify(&header);
+    let out = unsafe { POW_OUT };
+    let (target, overflow) = compact_to_target(compact);
+    // independent big-endian comparison hash <= target
+    let tb = {
+        let mut b = [0u8; 32];
+        target.into_big_endian(&mut b).unwrap();
+        b
+    };
+    let mut le = true; // out <= tb
+    let mut i = 0;
+    while i < 32 {
+        if out[i] != tb[i] {
+            le = out[i] < tb[i];
+            break;
+        }
+        i += 1;
+    }
+    let expect = !target.is_zero() && !overflow && le;
+    assert_eq!(ok, expect);
+    kani::cover!(ok, "accepting run reachable");
+    kani::cover!(!ok && !target.is_zero() && !overflow, "rejected by hash comparison reachable");
+}
